@@ -368,7 +368,9 @@ async fn negotiated_scenario(local: u32, remote: u32) -> Vec<(String, String)> {
         }
     }
     if remote < local && largest < remote {
-        f.push(("machinery".into(), format!("{what}: no frame reached the peer's limit (largest {largest})")));
+        // (not an error: an implementation may keep its frames below the limit - a benign variant that cuts frames 32
+        // bytes short does; it only means that "exactly at the limit" was not seen in this pair, which the evidence counts)
+        f.push(("note: no frame reached the peer's limit".into(), format!("{what}: largest frame {largest}")));
     }
     // --- incoming: a transfer frame of exactly the library's own max-frame-size must be accepted
     let overhead = {
@@ -525,6 +527,7 @@ pub const NEGOTIATED: [(u32, u32); 7] = [(512, 512), (512, 4096), (4096, 512), (
 fn negotiated(out: &mut Outcome) -> u64 {
     use vlib::runner::{run_exec, RunCfg, Scenario};
     let mut n = 0;
+    let mut below_limit = 0u64;
     for (l, r) in NEGOTIATED {
         let scen: Scenario<Vec<(String, String)>> = std::sync::Arc::new(move || Box::pin(negotiated_scenario(l, r)));
         let ex = run_exec(vec![], &RunCfg::none(), &scen);
@@ -534,6 +537,8 @@ fn negotiated(out: &mut Outcome) -> u64 {
                 for (s, d) in fs {
                     if s == "machinery" {
                         out.machinery_errors.push(d);
+                    } else if s.starts_with("note:") {
+                        below_limit += 1;
                     } else {
                         out.violation(s, d, json!({"kind": "negotiated", "local": l, "remote": r}));
                     }
@@ -542,6 +547,7 @@ fn negotiated(out: &mut Outcome) -> u64 {
             None => out.machinery_errors.push(format!("negotiated scenario ({l},{r}) died: {:?}", ex.panics)),
         }
     }
+    out.set("negotiated_pairs_in_which_no_frame_reached_the_peers_limit", below_limit);
     n
 }
 
